@@ -367,7 +367,16 @@ def applyTzFromSettings (st : Settings) (t : DT) : Except PyErr ADT := do
     x ← astimezone x b
   return (if st.aware == some true then x else { x with off := none })
 
-def epochMicros : Int := (DT.micros { y := 1970, mo := 1, d := 1 })
+/-- seconds from the (fictitious) ordinal-0 midnight to 1970-01-01T00:00:00 : `date(1970,1,1).toordinal() * 86400` -/
+def epochSecs : Nat := 62135683200
+
+/-- `datetime.fromtimestamp(seconds, fixed-offset zone).replace(microsecond=frac, tzinfo=None)` -/
+def timestampCore (secs off : Int) (frac : Nat) : Except PyErr DT :=
+  let total : Int := (epochSecs : Int) + secs + off
+  if total < 0 then .error .overflow else
+  match ofMicrosN (total.toNat * 1000000) with
+  | .ok t => .ok { t with us := frac }
+  | .error e => .error e
 
 def timestampParse (st : Settings) (negative : Bool) (s : String) : Except PyErr (Option (ADT × Period)) := do
   match searchR (if negative then RE_NTS else RE_TS) s with
@@ -379,8 +388,7 @@ def timestampParse (st : Settings) (negative : Bool) (s : String) : Except PyErr
     let secs : Int := if g1.startsWith "-" then -((natOfDigits (String.ofList (g1.toList.drop 1)) : Nat) : Int) else (natOfDigits g1 : Nat)
     let ms := natOfDigits ((g 2).getD "0"); let us := natOfDigits ((g 3).getD "0")
     let off : Int ← if isLocalTz st then pure st.localOff else needFixed st.tzLocalize
-    let t ← ofMicros (epochMicros + (secs + off) * 1000000)
-    let t := { t with us := ms * 1000 + us }
+    let t ← timestampCore secs off (ms * 1000 + us)
     let x ← applyTzFromSettings st t
     return some (x, if st.timeAsPeriod then .time else .day)
 
